@@ -368,6 +368,18 @@ func generate() {
 	rt(append(rep(ML, line), folderE(0)))
 	rt(append(rep(MF, folderE), line(0)))
 	rt(cat3(rep(MF, folderE), rep(ML, line), rep(MB, board)))
+	// the quotas are per folder: the same bounds inside nested folders (depth 1 and 2) while the root holds few,
+	// and a full root must not stop a nested folder
+	for _, n := range []int{63, 64, 65, 127, 128, 129} {
+		for _, mk := range []func(int) []*spec{func(n int) []*spec { return rep(n, line) }, func(n int) []*spec { return rep(n, folderE) }} {
+			rt([]*spec{folder(0, mk(n))})
+			rt([]*spec{board(0), folder(0, []*spec{line(0), folder(0, mk(n)), board(0)}), line(0)})
+		}
+	}
+	rt(append(rep(ML, line), folder(0, rep(ML, line))))
+	rt(append(rep(MF, folderE), folder(MF, nil))[:MF])
+	rt(append([]*spec{folder(0, rep(MF, folderE))}, rep(MF-1, func(i int) *spec { return folderE(i + 1) })...))
+	rt([]*spec{folder(0, []*spec{folder(0, rep(ML, line)), folder(1, rep(ML+1, line))})})
 	rt([]*spec{board(-1)})
 	rt([]*spec{board(MB - 1)})
 	rt([]*spec{board(MB)})
